@@ -778,12 +778,14 @@ pub async fn gen_ref_step(r: &mut Runner<'_>, p: usize, t: i64, rng: &mut Rng) {
 /// batch; k = 2048 or 4096 leaves no rest for the request after the loop
 pub async fn batch_boundary_history(r: &mut Runner<'_>, k: u64) -> usize {
     let t = T0 + 1000;
-    r.exec(Op::CreateMany { p: 0, x0: 1, k, t }).await;
-    // one of the rows of the day is the source row of a reference (re-dated on the same day)
+    // the source row of a reference and its target first (small dumps), then the other k-2 rows of the
+    // day in ONE mutation: every later dump has k rows, and the whole observation has to stay well below
+    // what coqc reads as one list literal (~30 000 integers inside an Eval): 4 big dumps
+    r.exec(Op::Create { p: 0, x: 1, t }).await;
+    r.exec(Op::Create { p: 0, x: 2, t: t + 1 }).await;
     r.exec(Op::AddRef { p: 0, x: 1, y: 2, t: t + 1000 }).await;
+    r.exec(Op::CreateMany { p: 0, x0: 3, k: k - 2, t: t + 2000 }).await;
     r.exec(Op::Pull { dst: 1, src: 0, t: t + 3000 }).await;
-    // one closing round only: every dump of this history has k rows and the whole observation has to
-    // stay below what coqc reads as one list literal (~45 000 integers)
     r.exec(Op::Pull { dst: 0, src: 1, t: t + 4000 }).await;
     r.exec(Op::Pull { dst: 1, src: 0, t: t + 4001 }).await;
     2
